@@ -758,10 +758,44 @@ def long_strings(out: hlib.RecWriter, stats: dict) -> None:
     stats['long'] = out.n
 
 
+def entity_blocks(text: str) -> list[str]:
+    """Hashes of the entity blocks of a whole-file export, in file order."""
+    parts = text.split('\n@')
+    return [sha('@' + part) for part in parts[1:]]
+
+
+def parse_whole(text: str, eval_bases: bool) -> FGD:
+    fsys = VirtualFileSystem({'verif.fgd': text})
+    fgd = FGD()
+    fgd.parse_file(fsys, fsys['verif.fgd'], eval_bases=eval_bases)
+    return fgd
+
+
+def generations(text1: str, cs: bool, ls: bool, eval_bases: bool) -> dict:
+    """text1 -> parse -> text2 -> parse -> text3, and whether text2 can be read the default way."""
+    rec = {'err': '', 'h1': sha(text1), 'h2': '', 'h3': '', 'blocks1': entity_blocks(text1), 'blocks2': [], 'default_parse': ''}
+    try:
+        second = parse_whole(text1, eval_bases)
+        text2 = second.export(label_spawnflags=ls, custom_syntax=cs)
+        rec['h2'] = sha(text2)
+        rec['blocks2'] = entity_blocks(text2)
+        try:
+            parse_whole(text2, True)
+        except Exception as exc:
+            rec['default_parse'] = type(exc).__name__ + ': ' + str(exc).split('\n')[0][:80]
+        text3 = parse_whole(text2, eval_bases).export(label_spawnflags=ls, custom_syntax=cs)
+        rec['h3'] = sha(text3)
+    except Exception as exc:
+        rec['err'] = type(exc).__name__ + ': ' + str(exc).split('\n')[0][:100]
+    return rec
+
+
 def bundled(out: hlib.RecWriter, stats: dict) -> None:
-    """The whole bundled database as one long trace: load, export everything to one file, parse it,
-    compare every definition, export again.  The file text is cut into per-entity parts by the
-    lengths of the individual exports; TLC checks every part against ExportLines and the sum."""
+    """The whole bundled database as one long trace: load, export everything to one file, parse it
+    (the default way: bases resolved while reading), compare every definition, export again and once
+    more.  The file text is cut into per-entity parts by the lengths of the individual exports; TLC
+    checks every part against ExportLines and the sum.  quick: one option combination and a
+    seed-rotated third of the per-entity records (the file-level records are always complete)."""
     thorough = hlib.tier() == 'thorough'
     F._ENGINE_DB = None
     whole = FGD.engine_dbase()
@@ -788,10 +822,10 @@ def bundled(out: hlib.RecWriter, stats: dict) -> None:
                               'len': len(own)})
         out.write({'k': 'file', 'step': 'order', 'opts': {'cs': cs, 'ls': ls}, 'order': order_rec, 'count': len(whole.entities),
                    'header': header, 'total': len(text), 'sig': dict(sig, action='export', cs=cs, ls=ls)})
-        # parse the whole file
+        # parse the whole file the default way
         parsed = None
         try:
-            parsed = parse_text(text, False)
+            parsed = parse_whole(text, True)
             out.write({'k': 'file', 'step': 'parse', 'opts': {'cs': cs, 'ls': ls}, 'err': '', 'count': len(parsed.entities),
                        'want': len(whole.entities), 'sig': dict(sig, action='parse', cs=cs, ls=ls)})
         except Exception as exc:
@@ -802,19 +836,21 @@ def bundled(out: hlib.RecWriter, stats: dict) -> None:
                        'count': 0, 'want': len(whole.entities), 'near': lines[max(0, line_no - 2):line_no],
                        'sig': dict(sig, action='parse', cs=cs, ls=ls)})
         # every definition: its part of the file text, and what came back
-        for ent in order:
+        for n, ent in enumerate(order):
+            if not thorough and n % 3 != hlib.seed() % 3 and n > 0:
+                continue
+            rec = ent_record(ent, cs, ls, 'bundled', text=parts[ent.classname])
             if parsed is not None:
-                rec = ent_record(ent, cs, ls, 'bundled', text=parts[ent.classname])
                 got = parsed.entities.get(ent.classname.casefold())
                 if got is not None:
                     rec['parsed'] = doc_proj(got)
-            else:
-                rec = ent_record(ent, cs, ls, 'bundled', text=parts[ent.classname])
             out.write(rec)
-        if parsed is not None:
-            text2 = parsed.export(label_spawnflags=ls, custom_syntax=cs)
-            out.write({'k': 'file', 'step': 'reexport', 'opts': {'cs': cs, 'ls': ls}, 'h1': sha(text), 'h2': sha(text2),
-                       'sig': dict(sig, action='reexport', cs=cs, ls=ls)})
+        # the generations of the file: bases resolved while reading (the default), and bases kept as names
+        for mode, eval_bases in (('default', True), ('names', False)):
+            rec = generations(text, cs, ls, eval_bases)
+            rec.update({'k': 'file', 'step': 'generations', 'mode': mode, 'opts': {'cs': cs, 'ls': ls},
+                        'sig': dict(sig, action='reexport', mode=mode, cs=cs, ls=ls)})
+            out.write(rec)
     F._ENGINE_DB = None
     stats['bundled'] = out.n
 
